@@ -450,6 +450,14 @@ def gen_case(rng, size=None, features=None):
             v = newv()
             ops.append(("p", v, mk_script(t, srcs + tgts[:i])))
             ops.append(("w", spec[t], v))
+        elif r < 0.815 and use_default:
+            # a rule shared by several targets is edited, then targets are asked for one at a time
+            dfile = rng.choice([dx, dd])
+            v = newv()
+            ops.append(("p", v, mk_script(None, srcs[:1])))
+            ops.append(("w", dfile, v))
+            for t in rng.sample(tgts, min(len(tgts), rng.randint(1, 3))):
+                ops.append(("ifc", [t], False))
         elif r < 0.84:
             ops.append(("r", rng.choice(list(spec.values()) + ([dx, dd] if use_default else []))))
         elif r < 0.87 and watch is not None:
